@@ -41,6 +41,8 @@ type impTarget struct {
 	mode   string     // "h2f": Hash / SetBigInt of a field package (imp_h2f.go): parameters zeroF / setBigIntF / ExpandMsgXmd instead of mul / one / inv
 	grp    string     // name of a point type treated as an ABSTRACT group element type G with operations add / dbl / neg / zero (imp_grp.go)
 	inf    string     // name of the package-level variable holding the point at infinity (read as `zero`)
+	ext    bool       // extended parameter set (JointScalarMultiplication / mulGLV): fromAffine, phi, split, limbs, frBits, elBitLen
+	aff    string     // name of the affine point type (abstract type A, only converted by FromAffine)
 	digest bool       // the MiMC digest state machine (imp_digest.go): struct over the abstract element type, field primitives / codecs as parameters
 	guards []impGuard // accepted alternative layout: exported function = panic guard around an unexported body
 }
@@ -205,6 +207,9 @@ func (p *impPkg) goType(e ast.Expr) *ity {
 		if p.tg.grp != "" && v.Name == p.tg.grp {
 			return &ity{k: "grp"}
 		}
+		if p.tg.aff != "" && v.Name == p.tg.aff {
+			return &ity{k: "aff"}
+		}
 	case *ast.SelectorExpr:
 		if id, ok := v.X.(*ast.Ident); ok && p.tg.digest && id.Name == "fr" && v.Sel.Name == "Element" {
 			return &ity{k: "elem"}
@@ -217,6 +222,9 @@ func (p *impPkg) goType(e ast.Expr) *ity {
 		}
 		if id, ok := v.X.(*ast.Ident); ok && id.Name == "big" && v.Sel.Name == "Int" {
 			return &ity{k: "bigint"}
+		}
+		if id, ok := v.X.(*ast.Ident); ok && id.Name == "fr" && v.Sel.Name == "Element" && p.tg.ext {
+			return &ity{k: "frel"} // the raw words of an fr.Element ([Limbs]uint64) as a list of naturals
 		}
 		if id, ok := v.X.(*ast.Ident); ok && id.Name == "sync" && v.Sel.Name == "WaitGroup" {
 			return &ity{k: "waitgroup"}
@@ -246,7 +254,7 @@ func (p *impPkg) goType(e ast.Expr) *ity {
 		}
 		if n := litInt(v.Len); n != nil && p.tg.grp != "" && n.IsInt64() && n.Int64() > 0 && n.Int64() < 1024 {
 			// fixed-size array of group elements: a list of that length (a value; element writes are value updates)
-			if t := p.goType(v.Elt); t.k == "grp" {
+			if t := p.goType(v.Elt); t.k == "grp" || t.k == "frel" {
 				return &ity{k: "array", n: int(n.Int64()), elem: t}
 			}
 		}
@@ -255,7 +263,7 @@ func (p *impPkg) goType(e ast.Expr) *ity {
 			return &ity{k: "map", elem: p.goType(v.Value)}
 		}
 	case *ast.StarExpr:
-		if t := p.goType(v.X); t.k == "struct" || t.k == "elem" || t.k == "grp" {
+		if t := p.goType(v.X); t.k == "struct" || t.k == "elem" || t.k == "grp" || t.k == "aff" {
 			return &ity{k: "ptr", elem: t}
 		} else if t.k == "bigint" { // *big.Int is read as an exact integer VALUE (mutating methods only on fresh objects)
 			return t
@@ -282,6 +290,12 @@ func (p *impPkg) lty(t *ity, qual bool) string {
 		return "F"
 	case "grp":
 		return "G"
+	case "aff":
+		return "A"
+	case "frel":
+		return "List Nat"
+	case "bigpair":
+		return "Int × Int"
 	case "array":
 		return "List " + p.ltyA(t.elem, qual)
 	case "bigint", "int64":
@@ -362,6 +376,8 @@ func (p *impPkg) zero(t *ity) string {
 		return "{}"
 	case "grp":
 		return "uninit"
+	case "frel":
+		return "(List.replicate limbs.toNat 0)"
 	case "array":
 		return fmt.Sprintf("List.replicate %d %s", t.n, p.zero(t.elem))
 	case "bigint":
@@ -599,6 +615,9 @@ func (p *impPkg) translateFunc(name string) string {
 	if fd == nil || fd.Body == nil {
 		die("imp: %s/%s: function %s not found", p.tg.dir, p.tg.file, name)
 	}
+	if p.tg.grp != "" {
+		renameShadowing(fd)
+	}
 	f := &impFn{p: p, fd: fd, name: name, nonNil: map[string]bool{}}
 	f.push()
 	var params []string
@@ -616,7 +635,7 @@ func (p *impPkg) translateFunc(name string) string {
 		params = append(params, "("+lname(f.recv)+" : "+p.lty(t, false)+")")
 	}
 	for _, fl := range fd.Type.Params.List {
-		if _, ok := fl.Type.(*ast.StarExpr); ok && p.goType(fl.Type).k != "bigint" && !(p.goType(fl.Type).k == "ptr" && p.goType(fl.Type).elem.k == "grp") {
+		if _, ok := fl.Type.(*ast.StarExpr); ok && p.goType(fl.Type).k != "bigint" && !(p.goType(fl.Type).k == "ptr" && (p.goType(fl.Type).elem.k == "grp" || p.goType(fl.Type).elem.k == "aff")) {
 			p.die(fl, "pointer parameter (outside the subset: only the receiver is passed by reference)")
 		}
 		t0 := p.paramType(fl.Type)
@@ -768,6 +787,11 @@ func impPassOf(out string) string {
 	if strings.HasSuffix(b, "All") && len(b) > 3 {
 		return b[:len(b)-3]
 	}
+	for _, fam := range grpFamilies {
+		if strings.HasPrefix(b, fam.name+"_") || b == fam.name+"All" {
+			return fam.name
+		}
+	}
 	return b
 }
 
@@ -878,6 +902,10 @@ func runImp() {
 		if tg.grp != "" {
 			impAbsParams, impAbsArgs = grpAbsParams, grpAbsArgs
 			impExtraReserved = grpReserved
+			if tg.ext {
+				impAbsParams, impAbsArgs = grpExtParams, grpExtArgs
+				impExtraReserved = grpExtReserved
+			}
 		}
 		if tg.elem != "" && tg.mode == "" {
 			impAbsParams, impAbsArgs = " {F : Type} (mul : F → F → F) (one : F) (inv : F → F)", " mul one inv"
@@ -968,6 +996,9 @@ func runImp() {
 		for _, fn := range tg.funcs {
 			if sig := p.grpTranslated[fn]; sig != nil && tg.grp != "" {
 				ty := "{G : Type} → (G → G → G) → (G → G) → (G → G) → G → G → G"
+				if tg.ext {
+					ty = "{G : Type} → {A : Type} → (G → G → G) → (G → G) → (G → G) → G → G → (A → G) → (G → G) → (Int → Int × Int) → Int → (Int → List Nat) → (List Nat → Int) → G"
+				}
 				for _, t := range sig.params {
 					ty += " → " + p.ltyA(t, false)
 				}
